@@ -1,7 +1,7 @@
 """C19 — segmented fetch (DESIGN §4 C19)."""
 import ast
 
-from .common import ctx, returns, calls_in_ctx, reach_from_succ, site, srcs_text, bound_args
+from .common import ctx, returns, calls_in_ctx, reach_from_succ, site, srcs_text, bound_args, orient
 from ..flow import callee_attr
 from ..loader import AnalysisError, norm
 
@@ -75,8 +75,11 @@ def _retry_counter(R, P, rt, aug, exprs, inst):
                 and isinstance(e.right, ast.Constant) and isinstance(e.right.value, int):
             return e.right.value if isinstance(e.op, ast.Add) else -e.right.value
         return None
-    tests = [t for t in rt.cfg.nodes if t.kind == 'test' and isinstance(t.ast, ast.Compare) and len(t.ast.ops) == 1
-             and lhs_off(t.ast.left) is not None]
+    class _T:      # test node seen with the counter on the left-hand side
+        def __init__(self, node, cmp):
+            self.node, self.ast, self.id = node, cmp, node.id
+    tests = [_T(t, orient(t.ast, lambda e: lhs_off(e) is not None)) for t in rt.cfg.nodes if t.kind == 'test'
+             and orient(t.ast, lambda e: lhs_off(e) is not None) is not None]
     probs = []
     if step != 1 or init is None:
         probs.append((f'counter init={init} step={step}', aug.ast))
@@ -92,7 +95,7 @@ def _retry_counter(R, P, rt, aug, exprs, inst):
     if bound != 'retry_times':
         probs.append((f'attempt limit is `{bound}`, not the retry_times argument', t.ast))
     op = type(t.ast.ops[0])
-    after_inc = rt.cfg.dominates(aug, t)
+    after_inc = rt.cfg.dominates(aug, t.node)
     # number of attempts n at which the raising edge is taken:  counter value c = init + n (after inc) or init + n - 1 (before)
     #  c >= R -> n = R - init (+1 if before) ; c > R -> n = R - init + 1 (+1) ; c == R -> same as >=
     if init is not None and step == 1:
@@ -103,11 +106,11 @@ def _retry_counter(R, P, rt, aug, exprs, inst):
         if attempts_minus_R != 0:
             probs.append((f'an Interest is attempted retry_times{attempts_minus_R:+d} times (test `{norm(t.ast)}`, counter from {init})', t.ast))
     # the raising edge re-raises the timeout; the other edge loops back to a new express
-    r_true = reach_from_succ(rt.cfg, t, True, follow_exc=False)
+    r_true = reach_from_succ(rt.cfg, t.node, True, follow_exc=False)
     raises = [n for n in rt.cfg.nodes if n.kind == 'raise' and n.id in r_true]
     if not raises or any(n.ast.exc is not None and P.exc_name(rt.f.mod, n.ast.exc) != 'ndn.types.InterestTimeout' for n in raises):
         probs.append(('exhausting the attempts does not re-raise the timeout', t.ast))
-    r_false = reach_from_succ(rt.cfg, t, False, follow_exc=False)
+    r_false = reach_from_succ(rt.cfg, t.node, False, follow_exc=False)
     if not any(n.id in r_false for (n, c) in exprs):
         probs.append(('a timed-out Interest is not expressed again', t.ast))
     if rt.cfg.exit.id in r_false and not any(n.id in r_false for (n, c) in exprs):
